@@ -472,6 +472,41 @@ def impl_obs(trace):
     return out
 
 
+# ---------------------------------------------------------------------------------------------------------------------
+# the arbiter's use of the pid file (gunicorn/arbiter.py is an anchor of the property): start, reload, re-exec, promotion, stop
+# ---------------------------------------------------------------------------------------------------------------------
+ARBITER_HISTORIES = [
+    ("A", [("HUP", "A")]),
+    ("A", [("HUP", "A"), ("HUP", "A")]),
+    ("A", [("HUP", "A"), ("USR2", "A"), ("Stop", "A")]),
+    ("A", [("USR2", "A"), ("HUP", "A"), ("Stop", "B"), ("NoticeChild", "A"), ("HUP", "A")]),
+    ("B", [("HUP", "B"), ("Stop", "A"), ("NoticeParent", "B"), ("HUP", "B")]),
+    ("B", [("Stop", "A"), ("NoticeParent", "B"), ("HUP", "B"), ("HUP", "B")]),
+]
+
+
+def arbiter_layer(ctx):
+    """The real Arbiter on the simulated kernel of the C14 harness, pid file configured: after every event a live master holds
+    its pid file (the configured name, or '<name>.2' while its parent lives) and leaves the other master's alone - otherwise a
+    second instance started on the same path would not be refused.  Oracle only (the histories' model is C14's)."""
+    from props import c14
+    nbad = 0
+    for unix in (True, False):
+        cfg = c14.base_cfg(True, unix)
+        for real, evs in ARBITER_HISTORIES:
+            u = c14.run_history(cfg, real, evs)
+            ctx.count_case(("arbiter-pidfile", unix, real, tuple(evs)), True)
+            ctx.hist("arbiter_layer", "real master in slot %s" % real)
+            for text, key in c14.judge(cfg, real, u):
+                if "pid file" not in text or key is not None:
+                    continue
+                nbad += 1
+                if nbad <= 2:
+                    ctx.violation("arbiter: " + text + " - a second master started on that path is then not refused",
+                                  {"kind": "arbiter-pidfile", "cfg": cfg, "real": real, "events": [list(e) for e in evs]})
+    ctx.log("arbiter layer: %d histories of the real Arbiter with a pid file; %d failures" % (2 * len(ARBITER_HISTORIES), nbad))
+
+
 def run(ctx):
     ok = ctx.build()
     n_random = 2000 if ctx.quick() else 50000
@@ -510,6 +545,7 @@ def run(ctx):
         break_after = 3
         if len(ctx.violations) >= break_after:
             break
+    arbiter_layer(ctx)
     # step 3: model vs implementation
     bad = ctx.correspond("hist", HEADER, cases, shard=300)
     if bad:
@@ -563,6 +599,14 @@ def search(ctx, seeds):
 
 
 def replay(rep):
+    if rep.get("kind") == "arbiter-pidfile":
+        from props import c14
+        u = c14.run_history(rep["cfg"], rep["real"], [tuple(e) for e in rep["events"]])
+        fs = [t for t, k in c14.judge(rep["cfg"], rep["real"], u) if "pid file" in t and k is None]
+        for e, o in u.obs:
+            print(e, o)
+        print("failures:", fs)
+        return 1 if fs else 0
     ops = []
     for o in rep["ops"]:
         o = list(o)
